@@ -37,7 +37,7 @@ PROPS = {
     'C01': {
         'mc_quick': ['MC_quick.cfg'], 'mc_thorough': MC_THOROUGH,
         'title': 'Cache transparency',
-        'units': [('general', 1500, 30000), ('nested', 1500, 30000), ('rebuild', 500, 10000), ('foreign', 500, 8000),
+        'units': [('swap', 1200, 15000), ('subcache', 600, 8000), ('general', 1500, 30000), ('nested', 1500, 30000), ('rebuild', 500, 10000), ('foreign', 500, 8000),
                   ('clean', 300, 4000), ('regress', 0, 0)],
         # a stale answer anywhere (C01: "always shows up in the result exactly as from scratch")
         'owned': C01_CLAUSES,
@@ -50,7 +50,7 @@ PROPS = {
     'C02': {
         'mc_quick': ['MC_quick_clean.cfg'], 'mc_thorough': MC_THOROUGH,
         'title': 'Rollback',
-        'units': [('crash', 2000, 40000), ('forcrash', 800, 15000), ('foreign', 400, 6000),
+        'units': [('swap', 1500, 20000), ('subcache', 500, 6000), ('crash', 2000, 40000), ('forcrash', 800, 15000), ('foreign', 400, 6000),
                   ('regress', 0, 0)],
         'owned': {'ExcIdentity', 'RollbackRestores', 'ExceptionPropagates', 'ExceptionClassMatches',
                   'TempDirRemoved', 'ForeignUntouched'},
@@ -62,7 +62,7 @@ PROPS = {
     'C03': {
         'mc_quick': ['MC_quick_clean.cfg'], 'mc_thorough': [('MC_tiny.cfg', 600)],
         'title': 'Foreign files',
-        'units': [('foreign', 1500, 30000), ('forcrash', 1500, 30000), ('clean', 400, 8000),
+        'units': [('swap', 1200, 15000), ('subcache', 400, 5000), ('foreign', 1500, 30000), ('forcrash', 1500, 30000), ('clean', 400, 8000),
                   ('crash', 300, 5000)],
         'owned': {'ForeignUntouched'},
         'nontrivial': lambda st, sc: st['commit'] + st['rollback'] + st['clean'] > 1,
@@ -73,7 +73,7 @@ PROPS = {
     'C04': {
         'mc_quick': ['MC_quick.cfg'], 'mc_thorough': MC_THOROUGH,
         'title': 'Virtual view',
-        'units': [('probe', 700, 12000), ('general', 500, 8000), ('nested', 1000, 15000), ('bfcontract', 300, 5000),
+        'units': [('swap', 800, 10000), ('forcrash', 600, 8000), ('probe', 700, 12000), ('general', 500, 8000), ('nested', 1000, 15000), ('bfcontract', 300, 5000),
                   ('regress', 0, 0)],
         'owned': {'AnswerMatches'},
         'nontrivial': lambda st, sc: st['q'] >= 10,
@@ -177,7 +177,7 @@ PROPS = {
     'C15': {
         'mc_quick': ['MC_quick_clean.cfg'], 'sim': None,
         'title': 'Refused calls',
-        'units': [('refuse', 4000, 60000)],
+        'units': [('subcache', 0, 0), ('refuse', 4000, 60000)],
         'owned': {'RefusalNoEffect', 'RefusalExpected', 'RefusedCallRanUserCode', 'TempDirRemoved',
                   'CleanNoCacheNoEffect'},
         'nontrivial': lambda st, sc: st['refuse'] > 0,
@@ -222,7 +222,7 @@ PROPS = {
     'C10': {
         'mc_quick': ['MC_quick.cfg'], 'mc_thorough': [('MC_nest.cfg', 1500)],
         'title': 'build_file contract',
-        'units': [('bfcontract', 2000, 30000), ('probe', 300, 5000), ('regress', 0, 0)],
+        'units': [('nested', 1500, 20000), ('swap', 600, 8000), ('bfcontract', 2000, 30000), ('probe', 300, 5000), ('regress', 0, 0)],
         'owned': {'TargetFileAfterOk', 'TargetAbsentAfterFail', 'OutcomeMatches', 'PathNormalised',
                   'SetupErrClass', 'SetupFailExpected', 'ExcIdentity', 'ReturnMatches', 'AnswerMatches',
                   'FinalTreeMatches', 'RollbackRestores', 'CleanExact', 'ExceptionClassMatches',
@@ -235,7 +235,7 @@ PROPS = {
     'C12': {
         'mc_quick': ['MC_quick_clean.cfg'], 'mc_thorough': [('MC_tiny.cfg', 900)],
         'title': 'clean',
-        'units': [('clean', 2000, 30000), ('rebuildclean', 2000, 30000), ('nested', 1500, 20000), ('foreign', 300, 5000)],
+        'units': [('swap', 800, 10000), ('subcache', 800, 10000), ('clean', 2000, 30000), ('rebuildclean', 2000, 30000), ('nested', 1500, 20000), ('foreign', 300, 5000)],
         'owned': {'CleanExact', 'CleanNoCacheNoEffect', 'ForeignUntouched', 'NoSpuriousException',
                   'ReuseOnlyIfValid'},
         'nontrivial': lambda st, sc: st['clean'] > 0,
